@@ -380,7 +380,7 @@ pub fn run(tier: &str, rec: &Recorder) -> RunOutput {
     let mut out = RunOutput::new("model_checking");
     let cap = wall_cap_s(tier);
     let stages: Vec<(&'static str, usize, usize)> = if tier == "quick" {
-        vec![("full2", 4, 2), ("mix2", 5, 0), ("sliceWA2", 4, 0)]
+        vec![("full2", 4, 2), ("mix2", 5, 0), ("sliceWA2", 4, 0), ("sliceWA2@alias", 3, 0)]
     } else {
         vec![("full2", 6, 3), ("full3", 4, 1), ("full3b", 2, 1), ("sliceW3", 5, 0), ("sliceA2", 7, 0), ("sliceWA2", 7, 0), ("sliceWA2@alias", 5, 0)]
     };
